@@ -102,6 +102,32 @@ def programs(tier):
     p("own columns crowd two rows, = and >= rows have none", [("x", NN()), ("y", NN()), ("u", NN()), ("v", NN())],
       [("a", [1.0, 1.0, 0.0, 0.0], "LessOrEqual", 10.0), ("b", [0.0, 0.0, 1.0, 1.0], "LessOrEqual", 8.0), ("e", [0.0, 1.0, 0.0, 1.0], "Equal", 5.0), ("g", [0.0, 1.0, 0.0, -1.0], "GreaterOrEqual", 1.0)], [-1.0, 0.0, -1.0, 0.0], "Min")
     p("negative right-hand side <= row has no own column", [("x", NN()), ("y", NN())], [("a", [1.0, 1.0], "LessOrEqual", 6.0), ("n", [0.0, -1.0], "LessOrEqual", -2.0)], [1.0, 0.0], "Max")
+    # names starting with `$` are not reserved for the standard form: auxiliaries of the lowering ($abs_0) and user variables
+    # ($margin) are variables of the model and come back with a value
+    p("dollar names of the model", [("$abs_0", NN()), ("$margin", NN(0.0, 6.0)), ("x", NN()), ("$shift", RL(-3.0, 3.0))], [("a", [1.0, 0.0, -1.0, 0.0], "GreaterOrEqual", -7.0), ("b", [1.0, 0.0, 1.0, 0.0], "GreaterOrEqual", 7.0), ("c", [0.0, 1.0, 1.0, 1.0], "LessOrEqual", 9.0)], [1.0, -1.0, 2.0, 1.0], "Min")
+    # infeasible rows next to a variable that occurs in no row and improves the objective without limit: infeasible, not unbounded
+    p("infeasible with an unconstrained improving variable, max", [("x", NN()), ("y", NN())], [("a", [1.0, 0.0], "LessOrEqual", 1.0), ("b", [1.0, 0.0], "GreaterOrEqual", 2.0)], [1.0, 1.0], "Max")
+    p("infeasible empty row with a free improving variable, min", [("x", NN()), ("z", RL())], [("e", [0.0, 0.0], "Equal", 1.0)], [1.0, -1.0], "Min")
+    p("infeasible equalities with an unconstrained improving variable", [("x", NN()), ("y", NN()), ("w", NN())], [("e1", [1.0, 1.0, 0.0], "Equal", 2.0), ("e2", [1.0, 1.0, 0.0], "Equal", 3.0)], [0.0, 0.0, -1.0], "Min")
+    p("unbounded through a variable that occurs in no row", [("x", NN()), ("y", NN())], [("a", [1.0, 0.0], "LessOrEqual", 1.0)], [1.0, 1.0], "Max")
+    # two-phase starts whose first phase meets a row that already holds a structural variable with the smallest ratio while a
+    # later row still holds an artificial one with a larger ratio
+    p("phase one: smallest ratio in a structural row", [("x1", NN()), ("x2", NN()), ("x3", NN())], [("r1", [0.0, 3.0, 3.0], "Equal", 6.0), ("r2", [0.0, 1.0, 3.0], "Equal", 2.0), ("r3", [2.0, 3.0, 3.0], "Equal", 10.0)], [1.0, 1.0, 1.0], "Min")
+    p("phase one: smallest ratio in a structural row, four columns", [("x1", NN()), ("x2", NN()), ("x3", NN()), ("x4", NN())], [("r1", [0.0, 2.0, 1.0, -1.0], "Equal", 1.0), ("r2", [3.0, 3.0, 3.0, 0.0], "Equal", 6.0), ("r3", [2.0, 0.0, 2.0, 0.0], "Equal", 2.0)], [1.0, 2.0, 1.0, 1.0], "Min")
+    p("phase one: negative right-hand side equality", [("x_1", NN()), ("x_2", NN()), ("x_3", NN())], [("r1", [-2.0, -2.0, 2.0], "Equal", -6.0), ("r2", [1.0, 1.0, 1.0], "Equal", 5.0)], [3.0, 2.0, 2.0], "Min")
+    if tier == "thorough":
+        # equality systems with small whole coefficients (two-phase starts of every shape), a fixed pseudo-random sample
+        import random as _rnd
+        rg = _rnd.Random(20260926)
+        for k_ in range(400):
+            nv, nr = rg.choice((3, 3, 4)), rg.choice((2, 3, 3))
+            rows_ = []
+            for r_ in range(nr):
+                co = [float(rg.choice((0, 0, 1, 1, 2, 3, -1, -2))) for _ in range(nv)]
+                if not any(co):
+                    co[rg.randrange(nv)] = 1.0
+                rows_.append(("r%d" % r_, co, rg.choice(("Equal", "Equal", "LessOrEqual", "GreaterOrEqual")), float(rg.choice((-6, -2, 0, 1, 2, 5, 6, 10)))))
+            p("equality system %d" % k_, [("x%d" % i_, NN()) for i_ in range(nv)], rows_, [float(rg.choice((0, 1, 2, 3, -1))) for _ in range(nv)], rg.choice(("Min", "Max")))
     if tier == "thorough":
         # a sweep of small programs: every sign pattern of a 2 x 2 system with a box
         k = 0
